@@ -81,6 +81,21 @@ DIRECTED += [
      "stw lim=0 blk=0 cb=0 nsub=1 nt=2 dur=0 wait=1 yp=0 sp=0 seed=1 trig=99:0 sdt=0:1 wd=3 "
      "rules=H:10:12:2:2,O:2:0:13:1,H:20:12:1:3,O:3:10:13:2"),
 ]
+DIRECTED += [
+    # three submitters parked on a full bounded blocking queue (limit 2): task 0 runs (gated), tasks 1 and 2 fill the queue,
+    # threads 13, 14, 15 park one after the other on cond_queue; the gate opens, the worker finishes task 0, takes task 1 and
+    # broadcasts cond_queue once: all three wake up, only one may link its task, the others must park again
+    ("stw-three-blocked-submitters",
+     "stw lim=2 blk=1 cb=0 nsub=6 nt=1 dur=0 wait=1 yp=0 sp=0 seed=1 trig=99:0 gt=0:1 "
+     "rules=H:11:12:1:2,O:2:0:9:1,H:12:12:1:3,O:3:11:13:1,H:13:12:1:4,O:4:12:13:1,H:14:12:1:5,O:5:13:3:1,H:15:12:1:6,O:6:14:3:1,"
+     "O:1:15:3:1,H:20:12:1:7,O:7:15:13:1"),
+    # the same with a non-waiting shutdown while the three are parked: all three must get IW_ERROR_INVALID_STATE, the two
+    # queued tasks are dropped (reported to the discard callback), task 0 finishes
+    ("stw-three-blocked-submitters-shutdown",
+     "stw lim=2 blk=1 cb=1 nsub=6 nt=1 dur=0 wait=0 yp=0 sp=0 seed=1 trig=99:0 gt=0:1 "
+     "rules=H:11:12:1:2,O:2:0:9:1,H:12:12:1:3,O:3:11:13:1,H:13:12:1:4,O:4:12:13:1,H:14:12:1:5,O:5:13:3:1,H:15:12:1:6,O:6:14:3:1,"
+     "H:20:12:1:7,O:7:15:3:1,O:1:20:2:1"),
+]
 # the sequence of distinct registry contents that the directed schedule is meant to produce (checked on the real trace;
 # a different sequence without a violation = schedule not reached = inconclusive, reported as a note)
 EXPECT_REGS = {
@@ -126,6 +141,16 @@ def gen_scenario(rng, tier):
                 nthr, lim, rng.choice([0, 0, 1]), nsub, len(pat), wait, yp, sp, seed, pat * nsub)
         return "stw lim=%d blk=0 cb=%d nsub=%d nt=%d dur=2 wait=%d yp=%d sp=%d seed=%d apis=%s" % (
             lim, rng.below(2), nsub, len(pat), wait, yp, sp, seed, pat * nsub)
+    if not tp and rng.chance(1, 4):
+        # several submitters blocked on a full bounded queue with a slow worker, often with a shutdown in between: one broadcast
+        # of the worker (or of the shutdown) wakes all of them; each must re-check the fill count / the shutdown flag
+        lim = rng.choice([1, 2, 2, 3])
+        nsub = rng.choice([3, 4, 6, 8])
+        nt = rng.choice([2, 3, 4, 6])
+        tk = rng.weighted([(0, 2), (K["WAIT"], 3), (K["RET"], 2), (K["RUN"], 1)])
+        tn = rng.range(2, nsub + 2) if tk == K["WAIT"] else rng.range(1, nsub * nt)
+        return "stw lim=%d blk=1 cb=%d nsub=%d nt=%d dur=%d wait=%d mix=%d yp=%d sp=%d seed=%d trig=%d:%d" % (
+            lim, rng.below(2), nsub, nt, rng.choice([1, 2, 2]), wait, rng.choice([0, 0, 10]), rng.choice([0, 10]), sp, seed, tk, tn)
     if tp and rng.chance(3, 5):
         # overflow churn: several overflow threads alive at once that take tasks of different length, so that they leave in
         # another order than they were registered (their cached indexes in tp->threads go stale)
@@ -348,13 +373,17 @@ def queue_counter(p, r):
     """trace-level (needs the ENQ/DEQ events of the source hook), independent of the model: the real number of queued tasks
     is #ENQ - #DEQ (iwstw_schedule_only replaces the queue by its task; a non-waiting shutdown empties it).  ENQ/DEQ
     are logged inside critical sections, so at the UNLOCK token of a caller the count is exact for its whole section.
-    (a) queue_size (api 4) must return that number; (b) IW_ERROR_OVERFLOW is legal only if the queue held >= limit tasks."""
-    st = {"qq": 0, "ovf": 0, "reuse": 0}
+    (a) queue_size (api 4) must return that number; (b) IW_ERROR_OVERFLOW is legal only if the queue held >= limit tasks;
+    (c) a bounded queue never holds more than queue_limit tasks: a submitter that finds it full is rejected or blocks, and a
+    blocked submitter that wakes up must look at the fill count again (several may be woken by one broadcast)."""
+    st = {"qq": 0, "ovf": 0, "reuse": 0, "parked": 0, "parked_max": 0, "sd_while_parked": 0}
+    parked = set()
     if r["hdr"].get("hook") != "1" or r["tag"] != "R":
         return [], st
     stw = p["kind"] == "stw"
     lim = int(p.get("lim", "0"))
     qlen, api, task, snap, notes = 0, {}, {}, {}, []
+    woke = set()
     name = "iwstw_queue_size" if stw else "iwtp_queue_size"
     rejected = False
     for i, tok in enumerate(r["trace"]):
@@ -364,8 +393,20 @@ def queue_counter(p, r):
         if k == K["CALL"]:
             api[t] = (a, f[4] if len(f) > 4 else 0)
             task[t] = f[3] if len(f) > 3 else -1
+            woke.discard(t)
+            if a == 3 and parked:
+                st["sd_while_parked"] = len(parked)
         elif k == K["ENQ"]:
             qlen = 1 if (stw and api.get(t, (0, 0))[0] == 1) else qlen + 1
+            if lim > 0 and qlen > lim and len(notes) < 3:
+                notes.append("the bounded queue holds %d tasks after task %d was linked by thread %d (event %d), queue_limit is %d: "
+                             "a full queue must reject or block%s" % (
+                                 qlen, a, t, i, lim, "; the submitter had been parked on the full queue and did not look at the "
+                                 "fill count again after waking up" if t in woke else ""))
+        elif k == K["WAIT"] and a == 1:
+            parked.add(t); st["parked"] += 1; st["parked_max"] = max(st["parked_max"], len(parked))
+        elif k == K["WAKE"] and a == 1:
+            parked.discard(t); woke.add(t)
         elif k == K["DEQ"]:
             qlen -= 1
         elif k == K["DISCARD"] and api.get(t, (0, 0))[0] == 3:
@@ -592,6 +633,12 @@ def evaluate(run, exe, model, named, env, label):
             run.dist("scenarios-with-genuine-overflow-rejections")
         if qs["reuse"]:
             run.dist("scenarios-accepting-again-after-overflow-rejections")
+        if qs["parked_max"] >= 2:
+            run.dist("stw-scenarios-with->=2-submitters-parked-on-the-full-queue-at-once")
+        if qs["parked_max"] >= 3:
+            run.dist("stw-scenarios-with->=3-submitters-parked-on-the-full-queue-at-once")
+        if qs["sd_while_parked"]:
+            run.dist("stw-shutdown-called-while-submitters-are-parked")
         if "sdt" in p:
             run.dist("stw-shutdown-from-task")
         if p["kind"] == "tp":
